@@ -6,11 +6,22 @@
 #            (witnesses corpus/C09/w2_* w3_* w4_*, description fixes/C09_validator_journal_reverts.md)
 # The witnesses stay in the corpus; a tree that shows the old behaviour again makes the
 # harness oracle report them, and the check answers with a VIOLATION line.
-# Open: CreateValidator over a removed validator (KNOWN below, fixes/C09_validator_create_revert.*).
+# Open (both need RemoveValidator, which has no production caller): CreateValidator over a removed
+# validator; statistics no longer invertible after a removal was counted twice (KNOWN below,
+# fixes/C09_validator_create_revert.*).
 
 KEY_CREATE = ("revert of a CreateValidator that replaced a removed validator wipes the address: the removed record and "
               "its index entry are not put back (validatorCreateChange)")
+KEY_STAT = ("a revert across UpdateValidator / RemoveValidator does not restore the statistics when they do not cover the "
+            "record (saturating subtraction in ValKindStat after RemoveValidator was counted twice)")
 KNOWN = [
+    {"property": "C09", "status": "open", "key": KEY_STAT,
+     "text": "after a RemoveValidator took effect, reverts no longer restore the validator statistics / index / validator root: the "
+             "removal is counted a second time (second RemoveValidator, or deleteValidator in IntermediateRoot), the totals stop covering "
+             "the remaining validators and ValKindStat's saturating subtraction is neither invertible nor independent of Go's map "
+             "iteration order; same root cause as the statistics defect of C08, RemoveValidator has no production caller. "
+             "witness corpus/C09/w9_statistics_saturation.json, description fixes/C09_validator_create_revert.md",
+     "witness": ["corpus/C09/w9_statistics_saturation.json"]},
     {"property": "C09", "status": "open", "key": KEY_CREATE,
      "text": "RevertToSnapshot across a CreateValidator that replaced a validator removed with RemoveValidator deletes the live "
              "entry and the index entry instead of putting the removed record back (validatorCreateChange only knows the address); "
@@ -21,10 +32,10 @@ KNOWN = [
 
 
 def check(pid, tier, seed):
-    """standard_check with the open C09 finding listed here (builders do not edit
-    the shared /verif/known_findings.json).  It is listed only while its witness
-    still fails on the tree under test, so nothing is printed once
-    fixes/C09_validator_create_revert.diff has been applied."""
+    """standard_check with the open C09 findings listed here (builders do not edit
+    the shared /verif/known_findings.json).  Each is listed only while its witness
+    still fails on the tree under test, so nothing is printed for a finding once
+    its repair has been applied."""
     import os
     import vf
     present = list(KNOWN)
@@ -68,6 +79,117 @@ SPEC = {
         "C09_nonvacuous_window", "C09_nonvacuous_validator_window", "C09_nonvacuous_remove_window",
         "C09_create_over_removed_validator",
     ],
+    "fingerprint_funcs": [
+        "core/state/statedb.go:StateDB.Snapshot",
+        "core/state/statedb.go:StateDB.RevertToSnapshot",
+        "core/state/statedb.go:StateDB.Finalise",
+        "core/state/statedb.go:StateDB.IntermediateRoot",
+        "core/state/statedb.go:StateDB.Commit",
+        "core/state/statedb.go:StateDB.clearJournalAndRefund",
+        "core/state/statedb.go:StateDB.AddLog",
+        "core/state/statedb.go:StateDB.AddPreimage",
+        "core/state/statedb.go:StateDB.AddRefund",
+        "core/state/statedb.go:StateDB.SubRefund",
+        "core/state/statedb.go:StateDB.AddBalance",
+        "core/state/statedb.go:StateDB.SubBalance",
+        "core/state/statedb.go:StateDB.SetBalance",
+        "core/state/statedb.go:StateDB.SetNonce",
+        "core/state/statedb.go:StateDB.SetCode",
+        "core/state/statedb.go:StateDB.SetState",
+        "core/state/statedb.go:StateDB.Suicide",
+        "core/state/statedb.go:StateDB.createObject",
+        "core/state/statedb.go:StateDB.CreateAccount",
+        "core/state/statedb.go:StateDB.GetOrNewStateObject",
+        "core/state/statedb.go:StateDB.getStateObject",
+        "core/state/statedb.go:StateDB.getDeletedStateObject",
+        "core/state/statedb.go:StateDB.Prepare",
+        "core/state/journal.go:journal.append",
+        "core/state/journal.go:journal.revert",
+        "core/state/journal.go:journal.dirty",
+        "core/state/journal.go:createObjectChange.revert",
+        "core/state/journal.go:createObjectChange.dirtied",
+        "core/state/journal.go:resetObjectChange.revert",
+        "core/state/journal.go:resetObjectChange.dirtied",
+        "core/state/journal.go:suicideChange.revert",
+        "core/state/journal.go:suicideChange.dirtied",
+        "core/state/journal.go:balanceChange.revert",
+        "core/state/journal.go:balanceChange.dirtied",
+        "core/state/journal.go:nonceChange.revert",
+        "core/state/journal.go:nonceChange.dirtied",
+        "core/state/journal.go:storageChange.revert",
+        "core/state/journal.go:storageChange.dirtied",
+        "core/state/journal.go:codeChange.revert",
+        "core/state/journal.go:codeChange.dirtied",
+        "core/state/journal.go:delegationBalanceChange.revert",
+        "core/state/journal.go:delegationBalanceChange.dirtied",
+        "core/state/journal.go:delegationsChange.revert",
+        "core/state/journal.go:delegationsChange.dirtied",
+        "core/state/journal.go:refundChange.revert",
+        "core/state/journal.go:refundChange.dirtied",
+        "core/state/journal.go:addLogChange.revert",
+        "core/state/journal.go:addLogChange.dirtied",
+        "core/state/journal.go:addPreimageChange.revert",
+        "core/state/journal.go:addPreimageChange.dirtied",
+        "core/state/journal.go:touchChange.revert",
+        "core/state/journal.go:touchChange.dirtied",
+        "core/state/journal.go:validatorCreateChange.revert",
+        "core/state/journal.go:validatorCreateChange.dirtied",
+        "core/state/journal.go:validatorUpdateChange.revert",
+        "core/state/journal.go:validatorUpdateChange.dirtied",
+        "core/state/journal.go:validatorDeleteChange.revert",
+        "core/state/journal.go:validatorDeleteChange.dirtied",
+        "core/state/journal.go:validatorAddUBDChange.revert",
+        "core/state/journal.go:validatorAddUBDChange.dirtied",
+        "core/state/journal.go:validatorDelWithdrawChange.revert",
+        "core/state/journal.go:validatorDelWithdrawChange.dirtied",
+        "core/state/state_object.go:stateObject.empty",
+        "core/state/state_object.go:stateObject.touch",
+        "core/state/state_object.go:stateObject.GetState",
+        "core/state/state_object.go:stateObject.GetCommittedState",
+        "core/state/state_object.go:stateObject.SetState",
+        "core/state/state_object.go:stateObject.setState",
+        "core/state/state_object.go:stateObject.finalise",
+        "core/state/state_object.go:stateObject.updateTrie",
+        "core/state/state_object.go:stateObject.updateRoot",
+        "core/state/state_object.go:stateObject.AddBalance",
+        "core/state/state_object.go:stateObject.SubBalance",
+        "core/state/state_object.go:stateObject.SetBalance",
+        "core/state/state_object.go:stateObject.SetCode",
+        "core/state/state_object.go:stateObject.setCode",
+        "core/state/state_object.go:stateObject.SetNonce",
+        "core/state/state_object.go:stateObject.SetDelegationBalance",
+        "core/state/state_object.go:stateObject.AddDelegationBalance",
+        "core/state/state_object.go:stateObject.UpdateDelegationTo",
+        "core/state/state_object.go:stateObject.updateDelegations",
+        "core/state/state_object.go:stateObject.setDelegations",
+        "core/state/statedb_val.go:StateDB.UpdateValidator",
+        "core/state/statedb_val.go:StateDB.RemoveValidator",
+        "core/state/statedb_val.go:StateDB.CreateValidator",
+        "core/state/statedb_val.go:StateDB.getValidator",
+        "core/state/statedb_val.go:StateDB.setValidator",
+        "core/state/statedb_val.go:StateDB.incrValidatorsStat",
+        "core/state/statedb_val.go:StateDB.decrValidatorsStat",
+        "core/state/statedb_val.go:StateDB.deleteValidator",
+        "core/state/statedb_val.go:StateDB.updateValidator",
+        "core/state/statedb_val.go:StateDB.AddWithdrawRecord",
+        "core/state/statedb_val.go:StateDB.RemoveWithdrawRecords",
+        "core/state/statedb_staking.go:StateDB.UpdateDelegator",
+        "core/state/statedb_staking.go:StateDB.UpdateDelegation",
+        "core/state/validator.go:Validator.StakeEqual",
+        "core/state/validator.go:Validator.PartialCopy",
+        "core/state/validator.go:Validator.IsInvalid",
+        "core/state/validator.go:ValKindStat.SubVal",
+        "core/state/validator.go:ValKindStat.AddVal",
+        "core/state/validator.go:ValKindStat.subStake",
+        "core/state/validator.go:ValKindStat.subToken",
+        "core/state/validator.go:ValKindStat.subCount",
+        "core/state/validator.go:WithdrawQueue.Add",
+        "core/state/validator.go:WithdrawQueue.Delete",
+        "core/state/validator.go:WithdrawQueue.Insert",
+        "core/state/validator.go:WithdrawQueue.RemoveRecords",
+        "core/state/validator.go:ValidatorIndex.Add",
+        "core/state/validator.go:ValidatorIndex.Delete",
+    ],
     "cases": {"quick": 500, "thorough": 12000},
     "shard": 500,
     "search_factor": 3,
@@ -85,7 +207,7 @@ SPEC = {
     "assumptions": [
         "read caches are semantically transparent (live objects over the account trie, originStorage over the storage trie): merged in the model, exercised by the harness (every getter is called after every call)",
         "inside the window: no Prepare (not journalled by design, called before a transaction's snapshot); no zero-value AddBalance to the RIPEMD precompile (designed upstream exception, witnessed by C09_ripemd_touch_exception)",
-        "validator calls inside the window meet the side conditions of ProofsV.v: CreateValidator targets an address that is in neither the live map nor the index (or an existing validator: refused); UpdateValidator / RemoveValidator act on the live record, which is in the index, while the statistics are non-negative, counters < 2^64 and cover that record; GetValidatorByMainAddr does not have to load from the trie; RemoveWithdrawRecords gets distinct positions. Measured on every generated history (distribution side_condition_*), not proved to be an invariant",
+        "validator calls inside the window meet the side conditions of ProofsV.v: CreateValidator targets an address that is in neither the live map nor the index (or an existing validator: refused) - with fixes/C09_validator_create_revert.diff a removed record in the live map and an indexed address are admitted too; UpdateValidator / RemoveValidator act on the live record, which is in the index, while the statistics are non-negative, counters < 2^64 and cover that record; GetValidatorByMainAddr does not have to load from the trie; RemoveWithdrawRecords gets distinct positions. Measured on every generated history (distribution side_condition_*): they fail only in histories that used RemoveValidator (the two open findings), they are not proved to be an invariant",
         "balances and delegation balances stay >= 0 (a negative big.Int cannot be RLP-encoded), nonce/refund below 2^64, validator roles in 1..3",
         "Go pointer aliasing is not modelled: the journal's old records are values",
     ],
